@@ -1,0 +1,145 @@
+//go:build verif
+
+// Contracts for the deductive verifier in /verif (govc). Only compiled with -tags verif.
+
+package state
+
+//@ func assert_
+//@   requires b
+
+func assert_(b bool) {}
+
+// ---- specification vocabulary ------------------------------------------------------
+
+//@ func stOf
+//@   pure
+
+// the status of a task as Task.Status reports it (the zero status means Do)
+func stOf(t *Task) Status {
+	if t.status == DefaultStatus {
+		return DoStatus
+	}
+	return t.status
+}
+
+// a task must wait while a prerequisite is unfinished: in Do, while some task it waits for is not
+// Done; in Undo, while some task that waited for it is not in a ready status
+//@ define mustWaitSpec(t *Task) = (stOf(t) == DoStatus && exists i int :: 0 <= i && i < len(t.waitTasks) && stOf(t.state.tasks[t.waitTasks[i]]) != DoneStatus) || (stOf(t) == UndoStatus && exists i int :: 0 <= i && i < len(t.haltTasks) && !stOf(t.state.tasks[t.haltTasks[i]]).Ready())
+
+// ---- lock assertions and small accessors -----------------------------------------------
+
+//@ func (*State).reading
+//@   assigns nothing
+
+//@ func (*State).writing
+//@   assigns State.modified
+
+//@ func (*Task).Status
+//@   props C02 C01
+//@   assigns nothing
+//@   ensures result == stOf(t)
+
+//@ func (*Task).AtTime
+//@   props C02
+//@   assigns nothing
+//@   ensures result == t.atTime
+
+//@ func (*Task).ID
+//@   assigns nothing
+//@   ensures result == t.id
+
+//@ func (*Task).Summary
+//@   assigns nothing
+
+//@ func (*Task).Kind
+//@   assigns nothing
+//@   ensures result == t.kind
+
+//@ func (*State).tasksIn
+//@   props C02
+//@   ensures len(result) == len(tids) && forall i int :: 0 <= i && i < len(tids) ==> result[i] == s.tasks[tids[i]]
+//@   loop 0: invariant -1 <= idx0 && idx0 < len(tids) && len(res) == len(tids)
+//@   loop 0: invariant forall j int :: 0 <= j && j <= idx0 ==> res[j] == s.tasks[tids[j]]
+
+//@ func (*Task).WaitTasks
+//@   props C02
+//@   ensures len(result) == len(t.waitTasks) && forall i int :: 0 <= i && i < len(t.waitTasks) ==> result[i] == t.state.tasks[t.waitTasks[i]]
+
+//@ func (*Task).HaltTasks
+//@   props C02
+//@   ensures len(result) == len(t.haltTasks) && forall i int :: 0 <= i && i < len(t.haltTasks) ==> result[i] == t.state.tasks[t.haltTasks[i]]
+
+// ---- C02: the dependency gate -------------------------------------------------------------
+
+//@ func mustWait
+//@   props C02 C01
+//@   ensures result == mustWaitSpec(t)
+//@   loop 0: invariant -1 <= idx0 && idx0 < len(ranged0)
+//@   loop 0: invariant forall j int :: 0 <= j && j <= idx0 ==> stOf(ranged0[j]) == DoneStatus
+//@   loop 1: invariant -1 <= idx1 && idx1 < len(ranged1)
+//@   loop 1: invariant forall j int :: 0 <= j && j <= idx1 ==> stOf(ranged1[j]).Ready()
+
+// ---- status changes ----------------------------------------------------------------------
+// T6 (callback frame): the change-status bookkeeping and the registered status-change handlers
+// (today: snapstate.processInhibitedAutoRefresh, restart.processRestartForChange) do not write the
+// fields the scheduling invariants talk about.
+
+//@ func (*Change).taskStatusChanged
+//@   trusted
+//@   preserves Task.status Task.waitedStatus Task.waitTasks Task.haltTasks Task.lanes Task.change Task.atTime Task.state Task.id Task.kind Task.readyTime Change.taskIDs Change.id Change.state State.tasks State.changes Md:Str:Ref Mv:Str:Ref Mc:Str:Ref E:Str E:Int
+
+//@ func (*State).notifyTaskStatusChangedHandlers
+//@   trusted
+//@   preserves Task.status Task.waitedStatus Task.waitTasks Task.haltTasks Task.lanes Task.change Task.atTime Task.state Task.id Task.kind Task.readyTime Change.taskIDs Change.id Change.state State.tasks State.changes Md:Str:Ref Mv:Str:Ref Mc:Str:Ref E:Str E:Int
+
+//@ func (*State).EnsureBefore
+//@   trusted
+//@   assigns nothing
+
+// timeNow is time.Now except in tests (MockTime)
+//@ func var:timeNow
+//@   trusted
+//@   assigns nothing
+
+//@ func (*Task).Change
+//@   assigns nothing
+//@   ensures result == t.state.changes[t.change]
+
+//@ func (*Task).changeStatus
+//@   props C01
+//@   ensures old != new ==> t.status == new
+//@   ensures old == new ==> t.status == old(t.status)
+//@   ensures forall x *Task :: x != t ==> x.status == old(x.status)
+//@   ensures forall x *Task :: x.waitTasks == old(x.waitTasks) && x.haltTasks == old(x.haltTasks) && x.atTime == old(x.atTime) && x.state == old(x.state)
+
+//@ func (*Task).SetStatus
+//@   props C01
+//@   ensures old(t.status) == AbortStatus && new == DoneStatus ==> t.status == AbortStatus
+//@   ensures !(old(t.status) == AbortStatus && new == DoneStatus) ==> t.status == new
+//@   ensures forall x *Task :: x != t ==> x.status == old(x.status)
+//@   ensures forall x *Task :: x.waitTasks == old(x.waitTasks) && x.haltTasks == old(x.haltTasks) && x.atTime == old(x.atTime) && x.state == old(x.state)
+
+//@ func (*TaskRunner).tryUndo
+//@   props C01
+//@   ensures stOf(t) == HoldStatus || stOf(t) == UndoStatus
+
+// ---- C02 / C07: what Ensure establishes before it starts a task ---------------------------
+
+// verdict of a registered "blocked" predicate (assumed pure and deterministic, T5)
+//@ ghost blockedBy(func, ref, slice) bool
+
+//@ func dyncall:(*TaskRunner).Ensure#0
+//@   trusted
+//@   assigns nothing
+//@   ensures result == blockedBy(recv, arg0, arg1)
+
+//@ func (*TaskRunner).Ensure
+//@   props C02 C07
+//@   guard call run: !mustWaitSpec(arg1)
+//@   guard call run: arg1.atTime.IsZero() || !ensureTime.Before(arg1.atTime)
+//@   guard call run: forall j int :: 0 <= j && j < len(r.blocked) ==> !blockedBy(r.blocked[j], arg1, running)
+//@   loop 2: invariant -1 <= idx2 && idx2 < len(ranged2)
+//@   loop 2: invariant forall j int :: 0 <= j && j <= idx2 ==> !blockedBy(ranged2[j], t, running)
+
+// handlers are only started by run, and run is only called from Ensure
+//@ callers [C02] (*TaskRunner).run: (*TaskRunner).Ensure
